@@ -73,6 +73,25 @@ func runC01(c *Ctx, r *Run) {
 				fns = append(fns, sf)
 			}
 		}
+		// every other function of the signing packages (helpers a mutation could be moved into)
+		have := map[*ssa.Function]bool{}
+		for _, f := range fns {
+			have[f] = true
+		}
+		for _, p := range c.LibPkgs() {
+			rel := c.Rel(p.Types)
+			if !(strings.HasPrefix(rel, "protocols/") && strings.Contains(rel, "sign")) && rel != "pkg/ecdsa" {
+				continue
+			}
+			for _, fn := range funcsOfPkg(c, c.SSA[p.Types]) {
+				withAnon(fn, func(f *ssa.Function) {
+					if !have[f] && f.Name() != "SigEthereum" {
+						have[f] = true
+						fns = append(fns, f)
+					}
+				})
+			}
+		}
 		sort.Slice(fns, func(i, j int) bool { return c.FuncName(fns[i]) < c.FuncName(fns[j]) })
 		for _, f := range fns {
 			r.Analysed(c.FuncName(f))
